@@ -28,6 +28,16 @@ CHECKS = {
             "binomial origin shift (code vs code).", SX, "5 C07"),
     "C08": ("Momentum / angular-momentum blocks = closed forms for every ordered pair; public matrices equal the reference for "
             "every ordered pair and are Hermitian.", SX, "5 C08"),
+    "C10": ("For every l (0..6 quick, 0..10 thorough) the generated matrix, executed exactly under the shim, is proved harmonic "
+            "(all Laplacian coefficients vanish), orthonormal (T S T^T = I), correctly phased, equal to an independent construction, "
+            "left = right^T; caller conventions honoured for enumerated permutations / sign patterns; malformed conventions rejected.",
+            SX + " (ground obligations over root atoms)", "5 C10"),
+    "C11": ("Both orientations of every two-index block and all eight orientations of ERI blocks computed independently agree; "
+            "every public module under every enumerated shell permutation; public arrays symmetric / Hermitian / eight-fold.", SX, "5 C11"),
+    "C12": ("Translations, all 48 signed axis permutations, axis rotations with symbolic angle: arrays transform with the monomial "
+            "representation matrices (code vs code); angular momentum shifts by d x p.", SX, "5 C12"),
+    "C13": ("Generalized = segmented, primitive permutation, primitive split, column scaling (positive / negative), linearity of "
+            "un-normalised blocks, for the public modules (code vs code).", SX, "5 C13"),
     "C09": ("Assembly of all four base classes on labelled dummy blocks for every cart/sph assignment within bounds, rectangular T, "
             "permuted/signed conventions, against an independent solid-harmonic construction; every public module's "
             "mixed/transformed result = transformed all-Cartesian result.", SX, "5 C09"),
